@@ -205,7 +205,11 @@ func c01Check(w *World, cfg *CompositeCfg, opts *BootOptions, parents []ParentRe
 			return &Violation{Prop: "C01", Class: "error-after-convergence", Sig: sig, Detail: "sync error after the poke: " + e.Msg}
 		}
 	}
-	// (2) converged: the last hook exchange of each parent describes the cluster
+	return convergedCheck(w, "C01", sig, cfg, parents, pokeStep)
+}
+
+// convergedCheck: the last hook exchange of each parent (after step pokeStep) describes the cluster.
+func convergedCheck(w *World, prop string, sig map[string]string, cfg *CompositeCfg, parents []ParentRef, pokeStep int) *Violation {
 	for _, p := range parents {
 		po := p.Get(w)
 		if po == nil {
@@ -224,7 +228,7 @@ func c01Check(w *World, cfg *CompositeCfg, opts *BootOptions, parents []ParentRe
 			}
 		}
 		if last == nil {
-			return &Violation{Prop: "C01", Class: "no-sync-after-poke", Sig: sig, Detail: fmt.Sprintf("parent %s/%s was never synced after its update at step %d", p.NS, p.Name, pokeStep)}
+			return &Violation{Prop: prop, Class: "no-sync-after-poke", Sig: sig, Detail: fmt.Sprintf("parent %s/%s was never synced after its update at step %d", p.NS, p.Name, pokeStep)}
 		}
 		desired, _, err := desiredFromResponse(w, last.RespBody, "children", p.NS)
 		if err != nil {
@@ -250,7 +254,7 @@ func c01Check(w *World, cfg *CompositeCfg, opts *BootOptions, parents []ParentRe
 		sort.Strings(missing)
 		sort.Strings(extra)
 		if len(missing)+len(extra) > 0 {
-			return &Violation{Prop: "C01", Class: "children-differ-from-desired", Sig: sig,
+			return &Violation{Prop: prop, Class: "children-differ-from-desired", Sig: sig,
 				Detail: fmt.Sprintf("parent %s/%s at quiescence: desired but not owned %v; owned but not desired %v", p.NS, p.Name, missing, extra)}
 		}
 		for id, d := range desired {
@@ -264,7 +268,7 @@ func c01Check(w *World, cfg *CompositeCfg, opts *BootOptions, parents []ParentRe
 			if !contains(owned[id], want) {
 				sig := copySig(sig)
 				sig["kindHasGeneration"] = fmt.Sprint(id.res.Generation)
-				return &Violation{Prop: "C01", Class: "field-differs-from-desired", Sig: sig,
+				return &Violation{Prop: prop, Class: "field-differs-from-desired", Sig: sig,
 					Detail: fmt.Sprintf("child %s (method %s): stored %s does not contain desired %s", id, m, jsonString(owned[id]), jsonString(want))}
 			}
 		}
